@@ -23,7 +23,9 @@ RULE = (
     "registered for the nearest class in the MRO, none if it raised, plus one traceback for a raising extractor); the "
     "object caught further out is the raised object (identity); success fields only on successful ends. Non-trivial: a "
     "BaseException-only class raised, or an MRO with >= 2 registered classes hit, or a failure propagating through >= 2 "
-    "actions. Distinct = canonical JSON of the case."
+    "actions. Facet interrupted-finish: a second destination raises KeyboardInterrupt while writing generated end messages "
+    "and the program finishes explicitly with the defensive `except BaseException as e: action.finish(e); raise` idiom: the "
+    "first destination must still see exactly one start and one end per action. Distinct = canonical JSON of the case."
 )
 ASSUMPTIONS = [
     "extractors return dicts and raise only Exception subclasses (anything else is a contract violation of the caller)",
@@ -134,6 +136,9 @@ def extractor_specs():
     beh = st.one_of(
         st.builds(lambda x: {"fields": {"x": x}}, st.integers(0, 9)),
         st.builds(lambda x, y: {"fields": {"x": x, "y": [y]}}, st.integers(0, 9), st.text(max_size=3)),
+        # an extractor whose fields are named like eliot's own (the truthful values must win on end messages)
+        st.builds(lambda x: {"fields": {"reason": "extractor-reason-%d" % x, "code": x}}, st.integers(0, 9)),
+
         st.sampled_from(RAISABLE).map(lambda i: {"raise": i}),
     )
     return st.lists(st.tuples(st.integers(0, len(EXTRACTOR_CLASSES) - 1), beh).map(list), max_size=5)
@@ -147,4 +152,76 @@ def strategy():
     )
 
 
-FACETS = [Facet("outcomes", strategy, check, classify, quick=1500, thorough=40000)]
+# ------------------------------------------------- interrupted end messages
+
+
+class Interrupt(KeyboardInterrupt):
+    """Arrives while a later destination is writing an end message."""
+
+    injected = True
+
+
+class InterruptingDest(object):
+    def __init__(self, mask):
+        self.mask = set(mask)
+        self.ends = 0
+
+    def __call__(self, message):
+        if message.get("action_status") in ("succeeded", "failed"):
+            k = self.ends
+            self.ends += 1
+            if k in self.mask:
+                raise Interrupt("interrupted while writing end message %d" % k)
+
+
+def defensive(program):
+    """Applications finishing explicitly wrap it in `except BaseException as e: action.finish(e); raise`."""
+    out = []
+    for node in program:
+        node = dict(node)
+        if node.get("op") == "action":
+            node["defensive_finish"] = True
+        if "body" in node:
+            node["body"] = defensive(node["body"])
+        out.append(node)
+    return out
+
+
+def check_interrupted(case):
+    dest = InterruptingDest(case["mask"])
+    run = P.run_program(
+        defensive(case["program"]),
+        sink="memory",
+        destinations=lambda observer: [observer, dest],
+        opts={"check_context": False, "defensive_finish": True},
+    )
+    require(not run.errors, "api-raised", lambda: repr(run.errors))
+    starts, ends = {}, {}
+    for m in run.messages:
+        if "action_status" in m:
+            key = (m["task_uuid"], tuple(m["task_level"][:-1]))
+            bucket = starts if m["action_status"] == "started" else ends
+            bucket.setdefault(key, []).append((m["action_status"], m["task_level"]))
+    for key in set(starts) | set(ends):
+        require(len(starts.get(key, [])) == 1, "start-count", lambda: "action %r has %d start messages" % (key, len(starts.get(key, []))))
+        require(len(ends.get(key, [])) == 1, "end-count", lambda: "action %r has end messages %r (an interrupt hit one of them; finishing again must emit nothing)" % (key, ends.get(key)))
+    hit = len([k for k in dest.mask if k < dest.ends])
+    return {"interrupts": hit, "actions": len(starts)}
+
+
+def classify_interrupted(case, info):
+    return info["interrupts"] >= 1 and info["actions"] >= 2, ["interrupts=%d" % min(info["interrupts"], 3), "actions=%d" % min(info["actions"], 8)]
+
+
+def interrupted_strategy():
+    return st.builds(
+        lambda mask, p: {"mask": sorted(set(mask)), "program": p},
+        st.lists(st.integers(0, 8), min_size=1, max_size=3),
+        P.programs(max_nodes=10, max_depth=4, kinds=["with", "finish", "finish_inside", "run", "task", "typed"], remote=False, extras=False),
+    )
+
+
+FACETS = [
+    Facet("outcomes", strategy, check, classify, quick=1500, thorough=40000),
+    Facet("interrupted-finish", interrupted_strategy, check_interrupted, classify_interrupted, quick=500, thorough=10000),
+]
